@@ -95,6 +95,22 @@ def make_sandbox(ctx, idx, R):
         for t in parsed[r]:
             if any(dt.root_namespace != r for dt in dsdlgen.composite_deps(t)):
                 main = r
+    # lookup types that are reachable ONLY through the request / response of a service of the main root, directly, through an
+    # array and transitively (the walk over dependencies must descend into service halves)
+    other = [r for r in roots if r != main][0]
+    dd = os.path.join(sb, "in", "dsdl")
+    os.makedirs(os.path.join(dd, other, "deepq"), exist_ok=True)
+    with open(os.path.join(dd, other, "deepq", "OnlyDeepq.1.0.dsdl"), "w") as f:
+        f.write("uint8 a\n@sealed\n")
+    with open(os.path.join(dd, other, "OnlySvcReqq.1.0.dsdl"), "w") as f:
+        f.write("uint8 a\n%s.deepq.OnlyDeepq.1.0 d\n@sealed\n" % other)
+    with open(os.path.join(dd, other, "OnlySvcRespq.1.0.dsdl"), "w") as f:
+        f.write("uint16 a\n@sealed\n")
+    with open(os.path.join(dd, other, "NeverUsedq.1.0.dsdl"), "w") as f:
+        f.write("uint8 a\n@sealed\n")
+    with open(os.path.join(dd, main, "ViaSvcq.1.0.dsdl"), "w") as f:
+        f.write("uint8 x\n%s.OnlySvcReqq.1.0 r\n@sealed\n---\n%s.OnlySvcRespq.1.0[<=2] rr\n@sealed\n" % (other, other))
+    parsed = dsdlgen.read_all(dd, roots)
     return sb, roots, parsed, main
 
 
@@ -156,6 +172,13 @@ def prepare_user_dirs(sb):
         for n in os.listdir(src):
             if n.endswith(".j2"):
                 shutil.copy(os.path.join(src, n), dst)
+        # partials of the same file name in different sub-folders, each included by one type template
+        for sub, tpl in (("msgq", "StructureType.j2"), ("svcq", "ServiceType.j2")):
+            os.makedirs(os.path.join(dst, sub))
+            with open(os.path.join(dst, sub, "header.j2"), "w") as f:
+                f.write({"py": "# partial %s\n", "c": "// partial %s\n", "cpp": "// partial %s\n"}[lang] % sub)
+            with open(os.path.join(dst, tpl), "a") as f:
+                f.write("\n{%% include '%s/header.j2' %%}\n" % sub)
         sup_src = os.path.join(common.REPO, "src", "nunavut", "lang", lang, "support")
         sup = os.path.join(sb, "in", "sup_" + lang)
         os.makedirs(sup)
@@ -277,7 +300,7 @@ def influence(ctx, sb, roots, parsed, main, c, listed_inputs, R):
             if f.endswith(".dsdl"):
                 cands.append(os.path.join(dp, f))
     if c["user_templates"]:
-        cands += [os.path.join(sb, "in", "tpl_" + c["lang"], n) for n in os.listdir(os.path.join(sb, "in", "tpl_" + c["lang"]))]
+        cands += [os.path.join(dp, n) for dp, dn, fn in os.walk(os.path.join(sb, "in", "tpl_" + c["lang"])) for n in fn]
     if c["user_support"]:
         cands += [os.path.join(sb, "in", "sup_" + c["lang"], n) for n in os.listdir(os.path.join(sb, "in", "sup_" + c["lang"]))]
 
